@@ -91,26 +91,54 @@ theorem offsetsAt_spec (ums : List Mod) (a : Nat) :
       obtain ⟨i, hm⟩ := List.mem_iff_getElem?.mp hmem
       exact ⟨i, (mem_unloadedAt ums a i).mpr ⟨m, hm, hc⟩, by simp only [g', hm]⟩
 
-/-- the loaded-module lookup cannot panic (C08's `safe_ok`) -/
-theorem inLoadedModule_some (ms : List Mod) (a : Nat) : ∃ b, inLoadedModule ms a = some b := by
-  unfold inLoadedModule
-  rw [safe_ok]
+/-- the attribution of one frame cannot panic -/
+theorem attachFrame_some (ums : List Mod) (f : Walk.Frame) : ∃ x, attachFrame ums f = some x := by
+  unfold attachFrame
+  split
   · exact ⟨_, rfl⟩
-  · intro e he r hr
-    simp only [List.mem_map] at he
-    obtain ⟨⟨m, i⟩, -, rfl⟩ := he
-    simp only at hr
-    have := mkRange_wf hr
-    exact ⟨this.1, this.2.1⟩
+  · obtain ⟨l, hl, -⟩ := offsetsAt_spec ums f.instruction
+    rw [hl]
+    exact ⟨_, rfl⟩
 
-theorem frameUnloaded_some (ms ums : List Mod) (a : Nat) : ∃ u, frameUnloaded ms ums a = some u := by
-  unfold frameUnloaded
-  obtain ⟨b, hb⟩ := inLoadedModule_some ms a
-  rw [hb]
-  cases b with
-  | true => exact ⟨[], rfl⟩
-  | false =>
-    obtain ⟨l, hl, -⟩ := offsetsAt_spec ums a
-    exact ⟨l, hl⟩
+/-- … and stores exactly `frame.unloaded_modules` -/
+theorem attachFrame_spec (ums : List Mod) (f : Walk.Frame) (x : IFrame) (h : attachFrame ums f = some x) :
+    x.f = f ∧
+    (∀ i, f.module = some i → x.unloaded = []) ∧
+    (f.module = none → ∀ name off, (name, off) ∈ x.unloaded ↔
+        ∃ m ∈ ums, covers m f.instruction = true ∧ name = m.name ∧ off = f.instruction - m.base) := by
+  unfold attachFrame at h
+  split at h
+  · rename_i i hi
+    cases h
+    exact ⟨rfl, (fun _ _ => rfl), fun hn => by rw [hn] at hi; cases hi⟩
+  · rename_i hn
+    obtain ⟨l, hl, hspec⟩ := offsetsAt_spec ums f.instruction
+    rw [hl] at h
+    cases h
+    exact ⟨rfl, (fun i hi => by rw [hi] at hn; cases hn), fun _ => hspec⟩
+
+/-- the `unwrap` inside `into_rangemap_safe` cannot fire for index-valued `memory_range()` tables
+    (C08's `safe_ok`) -/
+theorem tableOk_modEntries (ms : List Mod) : tableOk (modEntries ms) = true := by
+  unfold tableOk
+  rw [safe_ok]
+  intro e he r hr
+  simp only [modEntries, List.mem_map] at he
+  obtain ⟨⟨m, i⟩, -, rfl⟩ := he
+  simp only at hr
+  have := mkRange_wf hr
+  exact ⟨this.1, this.2.1⟩
+
+theorem memEntries_wf (rs : List Walk.Mem) : InputWF (memEntries rs) := by
+  intro e he r hr
+  simp only [memEntries, List.mem_map] at he
+  obtain ⟨⟨m, i⟩, -, rfl⟩ := he
+  simp only at hr
+  have := mkRange_wf hr
+  exact ⟨this.1, this.2.1⟩
+
+theorem tableOk_memEntries (rs : List Walk.Mem) : tableOk (memEntries rs) = true := by
+  unfold tableOk
+  rw [safe_ok _ (memEntries_wf rs)]
 
 end MdModel.Index
